@@ -5,4 +5,5 @@ INVARIANT SlotsInside
 INVARIANT PredsOK
 INVARIANT LastColumnFixed
 INVARIANT ReuseDecision
+INVARIANT LayoutAgrees
 CHECK_DEADLOCK FALSE
